@@ -73,7 +73,7 @@ class VirtualLoop(asyncio.SelectorEventLoop):
         self.timers = 0
         #: number of instrumented calls made by tasks since the last loop iteration
         self.spin = 0
-        self.spin_limit = 1000
+        self.spin_limit = 20000
 
     def time(self):
         return self._vnow
